@@ -30,4 +30,56 @@ def correspondence(ctx):
 def oracle(ctx, budget=1, replay=None, hints=None):
     kw, styles = _kw()
     acc = (lambda p: p['style'] in styles) if styles else None
-    return FL.oracle(ctx, PID, [O.check_C14], kw, 150 * budget, accept=acc, replay=replay)
+    r = FL.oracle(ctx, PID, [O.check_C14], kw, 150 * budget, accept=acc, replay=replay)
+    # a disable command that closes an episode leaves the same obligations as a move out of the region, including an owed recovery:
+    # designed programs where the command arrives while the recovery is owed, judged by the E / retraction oracles as well
+    for p in designed(ctx.rng, 12 * budget):
+        steps, exc = O.simulate(p)
+        O.episodes(steps)
+        fs = O.check_C14(p, steps) + O.check_C04(p, steps) + O.check_C05(p, steps)
+        r['evaluations'] += 1
+        r['distribution']['designed'] = r['distribution'].get('designed', 0) + 1
+        if fs:
+            f = min(fs, key=lambda x: x['step'])
+            f['source'] = 'designed'
+            r['failures'].append(f)
+    return r
+
+
+def designed(rng, n):
+    from fractions import Fraction as F
+    import genprog
+    R = [('rect', 'a', F(10), F(10), F(20), F(20))]
+    out = []
+    for i in range(n):
+        L = rng.choice(['1', '0.8', '2.5'])
+        e0 = rng.choice(['1', '3.2', '10'])
+        lo = '%g' % (float(e0) - float(L))
+        lines = ['G28', 'G1 X5 Y5 F3000', 'G1 X6 Y5 E%s F1200' % e0, 'G1 E%s F2400' % lo, 'G1 X15 Y15 F3000', 'G1 E%s F2400' % e0]
+        evs = [('cmd', l) for l in lines]
+        e = float(e0)
+        for k in range(rng.randint(0, 2)):
+            e += 0.5
+            evs.append(('cmd', 'G1 X%d Y16 E%g F1200' % (16 + k, e)))
+        evs.append(('at', '@ExcludeRegion off'))
+        tail = rng.choice(['retract-first', 'print-first', 'travel-first'])
+        if tail == 'print-first':
+            e += 0.5
+            evs.append(('cmd', 'G1 X18 Y18 E%g F1200' % e))
+        elif tail == 'travel-first':
+            evs.append(('cmd', 'G1 X18 Y12 F3000'))
+        evs += [('cmd', 'G1 E%g F2400' % (e - float(L))), ('cmd', 'G1 X30 Y30 F3000'), ('cmd', 'G1 E%g F2400' % e), ('cmd', 'G1 X31 Y30 E%g F1200' % (e + 0.5))]
+        if rng.random() < 0.5:
+            evs += [('at', '@ExcludeRegion on'), ('cmd', 'G1 E%g F2400' % (e + 0.5 - float(L))), ('cmd', 'G1 X15 Y15 F3000'), ('cmd', 'G1 E%g F2400' % (e + 0.5)),
+                    ('cmd', 'G1 X40 Y40 F3000'), ('cmd', 'G1 X41 Y40 E%g F1200' % (e + 1))]
+        out.append(dict(g90e=False, enter=None, exit=None, ext=dict(genprog.DEFAULT_EXT), regions=R, events=evs, style='eonly', alen='1'))
+    # exclusion switched back on while the tool stands inside a region: the next move is judged by where it ends, also when it does not change X/Y
+    for i in range(n):
+        evs = [('cmd', l) for l in ['G28', 'G1 X5 Y5 Z0.3 F3000', 'G1 X6 Y5 E1 F1200']]
+        evs += [('at', '@ExcludeRegion off'), ('cmd', 'G1 X15 Y15 F3000'), ('at', '@ExcludeRegion on')]
+        evs.append(('cmd', rng.choice(['G1 Z0.6', 'G1 X15 E2', 'G1 Y15 E2', 'G1 X15 Y15 E2', 'G1 Z0.5 E1.5'])))
+        if rng.random() < 0.5:
+            evs += [('cmd', 'G91'), ('cmd', 'G1 X0 Y0'), ('cmd', 'G90')]
+        evs += [('cmd', 'G1 X16 Y16 E3'), ('cmd', 'G1 X30 Y30 F3000'), ('cmd', 'G1 X31 Y30 E3.5 F1200')]
+        out.append(dict(g90e=False, enter=None, exit=None, ext=dict(genprog.DEFAULT_EXT), regions=R, events=evs, style='none', alen='1'))
+    return out
